@@ -18,6 +18,7 @@ type owned struct {
 	out   int
 	run   *CtorRun
 	owner int // harness scope id; -1 = provider (singleton); -2 = scope whose creation failed
+	orphan bool // output of a registration that was removed after the Add call (created for a sibling's sake)
 }
 
 // ownedDisposables lists every disposable instance the container created (successful
@@ -32,14 +33,17 @@ func ownedDisposables(r *Run, o *Obs) []owned {
 		}
 		ri := &m.Regs[run.Reg]
 		for j, id := range run.Outs {
-			if j >= ri.NumOuts || !ri.Disposes[j] || !ri.LiveOut[j] {
+			if j >= ri.NumOuts || !ri.Disposes[j] {
 				continue
 			}
 			ow := run.Scope
-			if ri.Life == godi.Singleton {
+			if ri.Life == godi.Singleton && ri.LiveOut[j] {
 				ow = -1
 			}
-			out = append(out, owned{id: id, reg: run.Reg, out: j, run: run, owner: ow})
+			// an output whose registration was removed after the Add call is served by nobody, but
+			// the invocation (made for a sibling output) created it: it belongs to the scope that
+			// ran the constructor and is disposed with it
+			out = append(out, owned{id: id, reg: run.Reg, out: j, run: run, owner: ow, orphan: !ri.LiveOut[j]})
 		}
 	}
 	return out
@@ -70,6 +74,9 @@ func MonC10(r *Run, o *Obs, faultNote string) []Finding {
 	for _, x := range ownedDisposables(r, o) {
 		ri := &m.Regs[x.reg]
 		feat := m.Features(x.reg) + faultNote
+		if x.orphan {
+			feat += ":output-of-a-removed-registration"
+		}
 		closes := o.Closes[x.id]
 		where := fmt.Sprintf("%s of %s (constructed in op%d %s, owner %s)", o.InstName(x.id), m.Describe(x.reg), x.run.Op, opText(r, x.run.Op), ownerName(x.owner))
 		if len(closes) > 1 {
